@@ -26,7 +26,7 @@ THEOREMS = ['C10_every_function_once', 'C10_skip_zero_hides_exactly_no_hits',
             'C10_hits_roundtrip', 'C10_hits_nine_digits_exact', 'C10_hits_fallback_six_digits',
             'C10_f1_precision', 'C10_f2_precision', 'C10_g_precision_partial',
             'C10_sort', 'C10_sort_default_by_key', 'C10_summarize',
-            'C10_skipzero_summary_refuted', 'C10_skipzero_summary_partial', 'C10_nonvacuous']
+            'C10_skipzero_summary_matches_details', 'C10_nonvacuous']
 LEVEL = 'proof'
 DRIVER = 'harness.drivers.c10'
 FINDING = 'C10-skipzero-summary-filters-on-time'
@@ -236,7 +236,8 @@ def gen_case(rnd, idx, tmpdir, malformed=False, shapes=None):
 
 
 def finding_case(tmpdir, idx):
-    """Canonical replay of the known finding (hits > 0, time = 0, stripzeros + summarize)."""
+    """Canonical replay of the finding repaired by /repo 49eff24 (hits > 0, time = 0, stripzeros +
+    summarize: the summary line was missing); kept in every run as a regression case."""
     d = '%s/c%d' % (tmpdir, idx)
     fn = d + '/zero.py'
     text = 'def fast(x):\n    return x\n\ndef slow(x):\n    return x + 1\n'
@@ -754,7 +755,8 @@ def run(tier, seed):
         evaluations=n_eval, distinct_nontrivial=len(nontrivial),
         rule='one evaluation = one real show_text call (one stats dict x one of the 16 option combinations); non-trivial = '
              'valid stats with at least one recorded line and details or summarize on, distinct by (stats, units, options)',
-        exhaustive='all 16 (stripzeros, sort, summarize, details) combinations for every generated stats dict',
+        exhaustive=True,
+        exhaustive_scope='all 16 (stripzeros, sort, summarize, details) combinations for every generated stats dict',
         stats_dicts=len(cases), valid_stats=sum(c['valid'] for c in cases), malformed_stats=sum(not c['valid'] for c in cases),
         functions_found=n_found, functions_missing_file=n_missing, functions_in_ipython_cells=n_cell, functions_without_hits=n_strip_hidden,
         functions_hits_but_zero_time=n_zero_time_fn, magnitudes=mag_hist, shapes=shape_hist,
